@@ -6,6 +6,8 @@ import warnings
 
 import gen
 import pyast
+import rungen
+import runobs
 import scopes
 import sexp
 from props import c02, c07
@@ -286,12 +288,77 @@ def run_programs(ctx, progs, osets, found_by):
         ctx.sample({'stage': found_by, 'id': t_meta[-1][0], 'options': t_meta[-1][1], 'source': t_meta[-1][2][:200], 'output': t_meta[-1][3][:200]})
 
 
+def _is_debug_test(t):
+    def const(n, v):
+        return isinstance(n, ast.Constant) and n.value is v
+    if isinstance(t, ast.Name) and t.id == '__debug__':
+        return True
+    if isinstance(t, ast.Compare) and len(t.ops) == 1 and isinstance(t.left, ast.Name) and t.left.id == '__debug__':
+        op, c = t.ops[0], t.comparators[0]
+        return (isinstance(op, ast.Is) and const(c, True)) or (isinstance(op, ast.IsNot) and const(c, False)) or (isinstance(op, ast.Eq) and const(c, True))
+    return False
+
+
+def _scope_bound(fn, o):
+    """names bound in the scope of function `fn` (not in nested scopes), with and without the statements remove_asserts /
+    remove_debug would take out"""
+    def walk(nodes, skipping, acc):
+        for n in nodes:
+            removed = skipping or (o.get('remove_asserts') and isinstance(n, ast.Assert)) or \
+                (o.get('remove_debug') and isinstance(n, ast.If) and not n.orelse and _is_debug_test(n.test))
+            visit(n, removed, acc)
+
+    def visit(n, removed, acc):
+        def bind(name):
+            acc[0].add(name)
+            if not removed:
+                acc[1].add(name)
+        if isinstance(n, (ast.FunctionDef, ast.AsyncFunctionDef, ast.ClassDef)):
+            bind(n.name)
+            return                      # a nested scope
+        if isinstance(n, ast.Lambda):
+            return
+        if isinstance(n, (ast.ListComp, ast.SetComp, ast.DictComp, ast.GeneratorExp)):
+            for m in ast.walk(n):       # only assignment expressions leak out of a comprehension
+                if isinstance(m, ast.NamedExpr):
+                    bind(m.target.id)
+            return
+        if isinstance(n, ast.Name) and isinstance(n.ctx, (ast.Store, ast.Del)):
+            bind(n.id)
+        if isinstance(n, (ast.Import, ast.ImportFrom)):
+            for a in n.names:
+                bind((a.asname or a.name).split('.')[0])
+        if isinstance(n, ast.ExceptHandler) and n.name:
+            bind(n.name)
+        if isinstance(n, (ast.MatchAs, ast.MatchStar)) and n.name:
+            bind(n.name)
+        if isinstance(n, ast.MatchMapping) and n.rest:
+            bind(n.rest)
+        if isinstance(n, (ast.Global, ast.Nonlocal)):
+            return
+        children = list(ast.iter_child_nodes(n))
+        stmts = [c for c in children if isinstance(c, ast.stmt)]
+        walk(stmts, removed, acc)
+        for c in children:
+            if not isinstance(c, ast.stmt):
+                visit(c, removed, acc)
+    acc = (set(), set())
+    walk(fn.body, False, acc)
+    return acc
+
+
 def shapes_of(src, o):
     s = []
     try:
         tree = ast.parse(src)
     except Exception:
         return s
+    if o.get('remove_asserts') or o.get('remove_debug'):
+        for fn in ast.walk(tree):
+            if isinstance(fn, (ast.FunctionDef, ast.AsyncFunctionDef)):
+                before, after = _scope_bound(fn, o)
+                if before != after:
+                    s.append('removed-statement-binds-function-local')
     for n in ast.walk(tree):
         if isinstance(n, ast.If) and o.get('remove_debug'):
             t = n.test
@@ -302,6 +369,84 @@ def shapes_of(src, o):
     if o.get('remove_literal_statements') and any(isinstance(n, ast.Name) and n.id == '__doc__' for n in ast.walk(tree)):
         s.append('doc-used-as-name')
     return sorted(set(s))
+
+
+DASH_O_PROGRAMS = [
+    ('debug-block-holds-only-binding', "x = 5\ndef f():\n    if __debug__:\n        x = 1\n    print(x)\ntry:\n    f()\nexcept NameError as e:\n    print(type(e).__name__)\n"),
+    ('assert-holds-only-binding', "y = 'global'\ndef f():\n    assert (y := 1)\n    return y\ntry:\n    print(f())\nexcept NameError as e:\n    print(type(e).__name__)\n"),
+    ('debug-import-holds-only-binding', "import os\ndef f():\n    if __debug__ is True:\n        import os\n    return os.sep\ntry:\n    print(f())\nexcept NameError as e:\n    print(type(e).__name__)\n"),
+    ('debug-block-binds-also-bound-elsewhere', "x = 5\ndef f(n):\n    x = n\n    if __debug__:\n        x = x + 1\n        print('debugging', x)\n    return x\nprint(f(1))\n"),
+    ('debug-block-no-binding', "def f(n):\n    if __debug__:\n        print('checking', n)\n    if __debug__ is not False:\n        print('again')\n    if __debug__ == True:\n        print('third')\n    return n\nprint(f(2))\n"),
+    ('assert-effects', "def note(v):\n    print('evaluated', v)\n    return v\ndef f(n):\n    assert note(n), note('message')\n    assert note(0) or True\n    return n\nprint(f(3))\n"),
+    ('debug-else-kept', "def f():\n    if __debug__:\n        print('debug')\n    else:\n        print('optimized')\n    if not __debug__:\n        print('not debug')\n    return 1\nprint(f())\n"),
+    ('debug-at-module-level', "if __debug__:\n    flag = 'debug'\n    print(flag)\ntry:\n    print(flag)\nexcept NameError:\n    print('unset')\n"),
+    ('debug-in-class-and-loops', "class K:\n    if __debug__:\n        attr = 1\n    def m(self):\n        for i in range(2):\n            if __debug__:\n                print(i)\n            assert i < 5\n        else:\n            if __debug__:\n                print('done')\n        return getattr(self, 'attr', None)\nprint(K().m())\n"),
+    ('only-statement-in-block', "def f(n):\n    if n:\n        assert n\n    else:\n        if __debug__:\n            print(n)\n    while n:\n        if __debug__: print('loop')\n        n -= 1\n    try:\n        assert False, 'boom'\n    except AssertionError:\n        print('caught')\n    finally:\n        if __debug__:\n            print('fin')\nf(2)\nf(0)\n"),
+]
+
+
+def dash_O_differential(ctx, progs, found_by):
+    """remove_asserts / remove_debug are documented as safe when the output runs under `python -O`: original and minified are both
+    executed with optimize=1 and must behave alike (stdout, ending, public namespace, import events)"""
+    off = dict((k, False) for k in ALL_SWITCHES)
+    osets = []
+    for name, ks in (('asserts', ['remove_asserts']), ('debug', ['remove_debug']), ('asserts+debug', ['remove_asserts', 'remove_debug'])):
+        o = dict(off)
+        for k in ks:
+            o[k] = True
+        osets.append((name, o))
+        d = dict(DEFAULTS)
+        for k in ks:
+            d[k] = True
+        osets.append(('defaults+' + name, d))
+    n = differ = 0
+    sreqs, smeta = [], []
+    for ident, src in progs:
+        a = runobs.observe(src, optimize=1)
+        if a['ending'] == 'timeout' or a['ending'].startswith('compile:'):
+            continue
+        for oname, o in osets:
+            if ctx.time_left() < 25:
+                break
+            out, exc = run_minify(src, o)
+            ctx.count()
+            if out is None:
+                continue
+            n += 1
+            b = runobs.observe(out, optimize=1)
+            d = runobs.diff(a, b)
+            if out != src:
+                ctx.mark_nontrivial('dashO|' + ident + '|' + oname)
+            if d:
+                differ += 1
+                ctx.add_violation({'input': {'source': src, 'options': o, 'run_with': '-O'},
+                                   'what': 'under python -O the minified program behaves differently: ' + '; '.join(d),
+                                   'observed': out[:400], 'found_by': found_by, 'oracle': 'differential-execution-under-O', 'shapes': shapes_of(src, o)})
+        # the side condition of T01.10, evaluated by the Lean model on the programs it can read
+        for kind in ('asserts', 'debug'):
+            try:
+                with pyast.unlimited():
+                    sreqs.append('pycore.scopestable %s %s' % (sexp.enc_str(kind), pyast.enc_module(ast.parse(src))))
+                smeta.append((ident, src, kind))
+            except pyast.OutOfModel:
+                pass
+    answers = ctx.driver.ask(sreqs) if sreqs else []
+    stable = 0
+    for (ident, src, kind), ans in zip(smeta, answers):
+        if not ans.startswith('ok '):
+            ctx.add_broken('correspondence', 'pycore.scopestable:' + ident, 'driver answered %r' % ans[:100])
+            continue
+        answer = ans[3:].strip()
+        ctx.bump('scopestable', answer)
+        if answer == 'outside':
+            continue                    # some function body is outside the core: calling it is stuck, the theorem says nothing
+        model_says = answer == 'true'
+        o = {'remove_asserts': kind == 'asserts', 'remove_debug': kind == 'debug'}
+        spec_says = 'removed-statement-binds-function-local' not in shapes_of(src, o)
+        stable += model_says
+        if model_says != spec_says:
+            ctx.add_broken('correspondence', 'pycore.scopestable:' + ident, 'the model says %s removal %s the local names of %r, the AST-level rule says the opposite' % (kind, 'keeps' if model_says else 'changes', src[:300]))
+    ctx.stage('dash-O-differential:' + found_by, runs=n, differ=differ, scopestable_true=stable, scopestable_asked=len(smeta))
 
 
 def run(ctx):
@@ -322,6 +467,9 @@ def run(ctx):
     for k in ctx.known:
         if k.get('replay_source'):
             run_programs(ctx, [(k['id'], k['replay_source'])], osets, 'known')
+    dash_O_differential(ctx, DASH_O_PROGRAMS, 'directed')
+    dash_O_differential(ctx, [('core%d' % i, rungen.core_program(ctx.rng)) for i in range(ctx.scale(40, 600))], 'generated-core')
+    dash_O_differential(ctx, [('wide%d' % i, rungen.program(ctx.rng)) for i in range(ctx.scale(25, 400))], 'generated-wide')
 
 
 def search(ctx):
@@ -332,6 +480,9 @@ def replay(ctx, data):
     inp = data.get('input') or {}
     if 'source' in inp and 'options' in inp:
         n0 = len(ctx.violations)
-        run_programs(ctx, [('replay', inp['source'])], [('replay', inp['options'])], 'replay')
+        if inp.get('run_with') == '-O':
+            dash_O_differential(ctx, [('replay', inp['source'])], 'replay')
+        else:
+            run_programs(ctx, [('replay', inp['source'])], [('replay', inp['options'])], 'replay')
         return len(ctx.violations) > n0
     return bool(data.get('broken'))
